@@ -588,9 +588,59 @@ func derivesFromPosParam(f *idxFacts, v ssa.Value) bool {
 
 // ---- R101: every write into the upper-casing buffer is in bounds and no rune is lost ----
 
+// cursorAdvancesOnlyByWrites: every definition of the write cursor n is 0, the result of copy, n+1 next to a
+// single-byte store at b[n], or n + utf8.EncodeRune(b[n:], ..).
+func cursorAdvancesOnlyByWrites(n ssa.Value) bool {
+	seen := map[ssa.Value]bool{}
+	var ok func(v ssa.Value) bool
+	ok = func(v ssa.Value) bool {
+		if seen[v] {
+			return true
+		}
+		seen[v] = true
+		switch t := v.(type) {
+		case *ssa.Const:
+			k, isK := constInt(t)
+			return isK && k == 0
+		case *ssa.Phi:
+			for _, e := range t.Edges {
+				if !ok(e) {
+					return false
+				}
+			}
+			return true
+		case *ssa.Call:
+			return builtinName(t) == "copy"
+		case *ssa.BinOp:
+			if t.Op != token.ADD || !ok(t.X) {
+				return false
+			}
+			if k, isK := constInt(t.Y); isK && k == 1 {
+				// a byte store at b[t.X] in the same block
+				for _, in := range t.Block().Instrs {
+					if st, isSt := in.(*ssa.Store); isSt {
+						if ia, isIA := st.Addr.(*ssa.IndexAddr); isIA && ia.Index == t.X {
+							return true
+						}
+					}
+				}
+				return false
+			}
+			if call, isCall := t.Y.(*ssa.Call); isCall && isFuncNamed(calleeObj(call), "unicode/utf8", "", "EncodeRune") {
+				if sl, isSl := call.Call.Args[0].(*ssa.Slice); isSl && sl.Low == t.X {
+					return true
+				}
+			}
+			return false
+		}
+		return false
+	}
+	return ok(n)
+}
+
 func init() {
 	register(&Rule{ID: "R101", Name: "UPPER-BUFFER", Floor: 6,
-		Text: "in the zero-alloc ToUpper (internal/strings): (a) the buffer chosen at the first changed rune is at least len(s)+utf8.UTFMax long on both branches - the caller's buffer only under a dominating test `len(*bP) >= len(s)+UTFMax`, otherwise a make of exactly that expression; (b) every single-byte store b[n] = byte(r) is dominated by a test n < len(b), or follows n = copy(b, prefix of s) into the buffer of (a); (c) every utf8.EncodeRune(b[n:], r) either follows the sizing of (a) directly or is dominated by the branch on `n+UTFMax >= len(b)`, whose true side replaces b by a make of at least twice its length into which b[:n] is copied first; (d) from each r := unicode.ToUpper(c) every path to the end of the iteration writes r exactly once - the byte store or the EncodeRune - except paths on the negative side of a test `r < 0` / `r >= 0` (no other constant), which write nothing; a rune is neither dropped nor written twice",
+		Text: "in the zero-alloc ToUpper (internal/strings): (a) the buffer chosen at the first changed rune is at least len(s)+utf8.UTFMax long on both branches - the caller's buffer only under a dominating test `len(*bP) >= len(s)+UTFMax`, otherwise a make of exactly that expression; (b) every single-byte store b[n] = byte(r) is dominated by a test n < len(b), or follows n = copy(b, prefix of s) into the buffer of (a) (a store under the contradictory guard n > len(b) is unreachable, given that n only advances by the byte count of a write); (c) every utf8.EncodeRune(b[n:], r) either follows the sizing of (a) directly or is dominated by the branch on `n+UTFMax >= len(b)`, whose true side replaces b by a make of at least twice its length into which b[:n] is copied first; (d) from each r := unicode.ToUpper(c) every path to the end of the iteration writes r exactly once - the byte store or the EncodeRune - except paths on the negative side of a test `r < 0` / `r >= 0` (no other constant), which write nothing; a rune is neither dropped nor written twice",
 		Run:  runR101})
 }
 
@@ -750,8 +800,18 @@ func runR101(c *Ctx) {
 					ok = true
 				}
 			}
+			// a store under the contradictory guard n > len(b) can never run: n only advances by the number of
+			// bytes some in-bounds write just produced (checked here), so n <= len(b) holds throughout
+			dead := false
+			for _, g := range dominatingGuards(w.in.Block()) {
+				if b, isB := g.Cond.(*ssa.BinOp); isB && b.Op == token.GTR && g.Val && b.X == w.pos && isLenOf(b.Y, func(ssa.Value) bool { return true }) {
+					dead = cursorAdvancesOnlyByWrites(w.pos)
+				}
+			}
 			if ok {
 				c.ok(key, p.instrPos(w.in), "dominated by n < len(b)")
+			} else if dead {
+				c.ok(key, p.instrPos(w.in), "unreachable: guarded by n > len(b), and n never exceeds len(b)")
 			} else if afterSizing(w.in.Block()) {
 				c.ok(key, p.instrPos(w.in), "right after the buffer was sized to len(s)+UTFMax and the prefix copied")
 			} else {
